@@ -2920,9 +2920,23 @@ def _preimage_of(
     rename_v = rename
     # check
     _assert_valid_rename(target, bdd, rename)
-    return _image(
-        trans, target, rename_u, rename_v,
-        qvars, bdd, forall, cache)
+    neighbors = all(
+        abs(i - j) == 1
+        for i, j in rename.items()
+        if isinstance(i, int) and isinstance(j, int))
+    if neighbors:
+        return _image(
+            trans, target, rename_u, rename_v,
+            qvars, bdd, forall, cache)
+    # The recursion of `_image` assumes that each
+    # variable is next to its partner. Reordering
+    # can separate them: rename, conjoin, quantify.
+    level_map = {
+        j: rename.get(j, j)
+        for j in range(len(bdd.vars))}
+    r = _copy_bdd(target, level_map, bdd, bdd, cache)
+    r = bdd.ite(trans, r, -1)
+    return bdd.quantify(r, qvars, forall)
 
 
 def _image_args_by_name(
